@@ -26,7 +26,10 @@ linked entry) → `sl.rel` → `ul.acq`.
 
 ## Stop-token wait (follow-up C07s)
 
-`condition_variable_any::wait(lock, stop_token, pred)` (operation `swait`) and
+`condition_variable_any::wait(lock, stop_token, pred)` (operation `swait false`),
+`wait_until/wait_for(lock, stop_token, t, pred)` (operation `swait true`: the same text with
+`cond_.wait_until`, plus `should_stop = timeout || stop_requested()` (S2, event `cva.stop2`)
+computed under the internal lock after the wait and `if (should_stop) return pred()`) and
 `stop_source::request_stop()` (operation `stop`) on one shared stop state:
 
 ```
@@ -71,26 +74,27 @@ inductive Op where
   | set (v : Bool)               -- flag = v (caller holds the user lock)
   | notify (all : Bool)          -- cv.notify_one() / cv.notify_all()
   | wait (tm pr : Bool)          -- cv.wait / wait_for, without / with predicate
-  | swait                        -- cv.wait(lock, stop_token, pred)
+  | swait (tm : Bool)            -- cv.wait(lock, stop_token, pred) / cv.wait_for(lock, stop_token, d, pred)
   | stop                         -- stop_source.request_stop()
   deriving DecidableEq, Repr
 
 def isTimed : Op → Bool
   | .wait tm _ => tm
+  | .swait tm => tm
   | _ => false
 
 def isPred : Op → Bool
   | .wait _ pr => pr
-  | .swait => true
+  | .swait _ => true
   | _ => false
 
 def isWait : Op → Bool
   | .wait _ _ => true
-  | .swait => true
+  | .swait _ => true
   | _ => false
 
 def isStop : Op → Bool
-  | .swait => true
+  | .swait _ => true
   | _ => false
 
 def b2n (b : Bool) : Nat := if b then 1 else 0
@@ -114,6 +118,7 @@ inductive Pc where
   | wokeNL (tm p : Bool)         -- woke up, internal lock not yet re-taken
   | relk (tm p : Bool)           -- internal lock re-taken, before the ctx_ test (cv.woke)
   | post (still : Bool)          -- after cv.woke (+ erase if still linked), internal lock held
+  | postS (still : Bool)         -- timed stop-token wait: `should_stop` computed (S2), internal lock held
   | relockU (still : Bool)       -- internal lock released, user lock not yet re-taken
   | retn (r : Nat)               -- wait about to return r (user lock held)
   | nWant                        -- notify invoked, internal lock not yet taken
@@ -166,6 +171,7 @@ inductive Ev where
   -- stop-token interface (see the table in the header)
   | stop0 (t : Nat) (v : Bool)
   | stop1 (t : Nat) (v : Bool)
+  | stop2 (t : Nat) (ss : Bool)
   | stSeen (t : Nat)
   | stAcq (t : Nat) (mode : Nat)
   | stPush (t : Nat) (hadNext : Bool)
@@ -208,6 +214,8 @@ structure St where
   cur : Option Nat
   cbFin : Nat → Bool
   kept : Nat → Bool
+  /-- the local `should_stop` of `wait_until(lock, stop_token, …)` -/
+  sstop : Nat → Bool
   /-- history: the thread whose `request_stop` won; that call has finished its callback loop -/
   reqT : Nat
   stopDone : Bool
@@ -217,12 +225,12 @@ def init (n : Nat) (flag : Bool) : St :=
     flag := flag, curOp := fun _ => .lock, waiting := fun _ => false, poppedOp := fun _ => false,
     enqs := fun _ => 0, pops := fun _ => 0, everTimed := false,
     stopReq := false, sLock := none, cbs := [], cur := none, cbFin := fun _ => false,
-    kept := fun _ => false, reqT := 0, stopDone := false }
+    kept := fun _ => false, sstop := fun _ => false, reqT := 0, stopDone := false }
 
 /-- Where a wait form goes once its result `r` is known: a stop-token wait whose callback is
     registered runs `~stop_callback` first. -/
 def exitPc (s : St) (t : Nat) (r : Nat) : Pc :=
-  if s.curOp t = .swait ∧ s.kept t = true then .sDtor r else .retn r
+  if isStop (s.curOp t) = true ∧ s.kept t = true then .sDtor r else .retn r
 
 /-- Mark a waiter as popped from the cv queue (its `ctx_` was reset by the notifier). -/
 def setPopped : Pc → Option Pc
@@ -274,7 +282,7 @@ def step (s : St) : Ev → Option St
           some { s with pc := upd s.pc t (if pr then .predChk false else .want),
                         curOp := upd s.curOp t o, poppedOp := upd s.poppedOp t false }
         else none
-      | .swait =>
+      | .swait _ =>
         if s.ulock = some t then
           some { s with pc := upd s.pc t .sChk0, curOp := upd s.curOp t o,
                         poppedOp := upd s.poppedOp t false, kept := upd s.kept t false }
@@ -289,7 +297,8 @@ def step (s : St) : Ev → Option St
         -- public wait returns: plain forms report the status, predicate forms re-test
         some { s with ulock := some t,
                       pc := upd s.pc t (if isPred (s.curOp t)
-                                         then .predChk (isTimed (s.curOp t) && still)
+                                         then .predChk (if isStop (s.curOp t) && isTimed (s.curOp t) then s.sstop t
+                                                        else isTimed (s.curOp t) && still)
                                          else .retn (b2n (isTimed (s.curOp t) && still))) }
       | _ => none
     else none
@@ -317,7 +326,7 @@ def step (s : St) : Ev → Option St
   | .slAcq t =>
     if t < s.n ∧ s.lock = none then
       match s.pc t with
-      | .want => some { s with lock := some t, pc := upd s.pc t (if s.curOp t = .swait then .sChk1 else .locked),
+      | .want => some { s with lock := some t, pc := upd s.pc t (if isStop (s.curOp t) then .sChk1 else .locked),
                                poppedOp := upd s.poppedOp t false }
       | .cWant k => some { s with lock := some t, pc := upd s.pc t (.cLocked k) }
       | .wokeNL tm p => some { s with lock := some t, pc := upd s.pc t (.relk tm p) }
@@ -328,7 +337,11 @@ def step (s : St) : Ev → Option St
     if t < s.n ∧ s.lock = some t then
       match s.pc t with
       | .enq tm => some { s with lock := none, pc := upd s.pc t (.unl tm false) }
-      | .post still => some { s with lock := none, pc := upd s.pc t (.relockU still) }
+      | .post still =>
+        -- the timed stop-token wait computes `should_stop` (S2) before it leaves the block
+        if isStop (s.curOp t) && isTimed (s.curOp t) then none
+        else some { s with lock := none, pc := upd s.pc t (.relockU still) }
+      | .postS still => some { s with lock := none, pc := upd s.pc t (.relockU still) }
       | .nDone => some { s with lock := none, pc := upd s.pc t .nRet }
       | .nAll => if s.queue = [] then some { s with lock := none, pc := upd s.pc t .nRet } else none
       | .cAll k => if s.queue = [] then some { s with lock := none, pc := upd s.pc t (.cRet k) } else none
@@ -429,6 +442,16 @@ def step (s : St) : Ev → Option St
     if t < s.n ∧ s.lock = some t ∧ v = s.stopReq then
       match s.pc t with
       | .sChk1 => some { s with pc := upd s.pc t (if v then .sStopped else .locked) }
+      | _ => none
+    else none
+  | .stop2 t ss =>
+    -- should_stop = (reason == timeout) || stoken.stop_requested(), under the internal lock
+    if t < s.n ∧ s.lock = some t ∧ s.curOp t = .swait true then
+      match s.pc t with
+      | .post still =>
+        if ss = (still || s.stopReq) then
+          some { s with sstop := upd s.sstop t ss, pc := upd s.pc t (.postS still) }
+        else none
       | _ => none
     else none
   | .stSeen t =>
